@@ -339,6 +339,13 @@ func genUpgrade(g *Gen, n int) {
 				}
 				g.emit("v.up.v2pool %s %s %s %d %d %s %s %s", o, fmt.Sprintf("p%d", i), esc(g.pick("Validators", "Advisors", "x y")), now-int64(g.intn(100))*sec, now+int64(g.intn(100000))*sec, ini, wd, sent)
 			}
+			if sc%2 == 0 {
+				// directed shape: two entries whose owner strings are the two valid spellings of ONE address
+				o := vaddr(63)
+				g.emit("v.up.v2pool %s low Advisors %d %d %s 0 0", o, now-10*sec, now+1000*sec, g.logBig(12))
+				g.emit("v.up.v2pool %s up Advisors %d %d %s 0 0", strings.ToUpper(o), now-10*sec, now+1000*sec, g.logBig(12))
+				g.count("shape/owner-both-spellings")
+			}
 			g.emit("v.up.migrate3")
 			g.emit("v.q.summary 1")
 			g.count("scenario/migrate3")
